@@ -99,6 +99,33 @@ func scratchRoot() string {
 	return filepath.Join(os.TempDir(), "kcverif")
 }
 
+// trimGoCache: every build of a changed tree leaves ~40 MB of compiled packages
+// and a linked worker in the Go build cache; hundreds of builds (a day of
+// running the checks against modified trees) fill the disk.  If the cache looks
+// larger than ~30 GB (one of its 256 shards is measured) it is emptied; the
+// next build then recompiles the dependencies (about a minute).
+func trimGoCache() {
+	out, err := exec.Command("go", "env", "GOCACHE").Output()
+	if err != nil {
+		return
+	}
+	dir := strings.TrimSpace(string(out))
+	if dir == "" || dir == "off" {
+		return
+	}
+	var shard int64
+	filepath.Walk(filepath.Join(dir, "00"), func(_ string, fi os.FileInfo, err error) error {
+		if err == nil && !fi.IsDir() {
+			shard += fi.Size()
+		}
+		return nil
+	})
+	if shard*256 > 30<<30 {
+		fmt.Fprintf(os.Stderr, "check: the Go build cache holds about %d GB: emptying it\n", shard*256>>30)
+		exec.Command("go", "clean", "-cache").Run()
+	}
+}
+
 // ensureBuild returns the directory holding the worker built from the current trees.
 func ensureBuild(yield, owner string) (dir string, fp string) {
 	repoFP := fingerprint(repoDir)
@@ -112,6 +139,7 @@ func ensureBuild(yield, owner string) (dir string, fp string) {
 		os.Chtimes(dir, time.Now(), time.Now())
 		return dir, fp
 	}
+	trimGoCache()
 	tmp, err := os.MkdirTemp(root, "tmpbuild-")
 	if err != nil {
 		infra("mkdir temp: %v", err)
